@@ -119,6 +119,7 @@ P27 = [_plabel(c, f, s) for c in P_VALUES["cfac"] for f in P_VALUES["fadd"]
        for s in P_VALUES["space"]]
 P7 = [p for p in P27 if "," not in p]
 P1 = ["default"]
+P4 = ["default", "cfac=1.0", "fadd=0.0", "space=1.0"]
 
 
 def params_kw(label):
@@ -1229,10 +1230,12 @@ def enumerate_cases(tier, seed):
                       "records": True})
     for s, o, lay in _placements(order):
         if thorough:
-            for chunk in (P27[0:9], P27[9:18], P27[18:27]):
-                cases.append({"kind": "geom", "n": 2, "mode": "full",
-                              "scale": s, "offset": o, "layout": lay,
-                              "params": chunk})
+            cases.append({"kind": "geom", "n": 2, "mode": "full",
+                          "scale": s, "offset": o, "layout": lay,
+                          "params": P7})
+            cases.append({"kind": "geom", "n": 2, "mode": "star", "scale": s,
+                          "offset": o, "layout": lay,
+                          "params": [p for p in P27 if p not in P7]})
         else:
             cases.append({"kind": "geom", "n": 2, "mode": "star", "scale": s,
                           "offset": o, "layout": lay, "params": P7})
@@ -1243,7 +1246,7 @@ def enumerate_cases(tier, seed):
                     cases.append({"kind": "geom", "n": 3, "order": k,
                                   "r0": r0, "scale": s, "offset": o,
                                   "layout": lay,
-                                  "params": P7 if k == 0 else P1})
+                                  "params": P4 if k == 0 else P1})
         else:
             # one of the nine (file order, first radius) blocks, by the seed
             cases.append({"kind": "geom", "n": 3, "order": seed % 3,
